@@ -352,4 +352,18 @@ def runPlainPlan (l : Level) (p : RnsPoly) : List PlainStep → Ct → R Ct
   | .ctFromNtt :: t, a => do let r ← ctFromNtt l a; runPlainPlan l p t r
   | _ :: _, _ => .error .other
 
+/-- the route `multiply_plain_normal` (coefficient-form ciphertext and plaintext) takes, as step codes (tools/rs2lean.py, `SK_MUL_PLAIN_NORMAL`):
+    a plaintext with ONE non-zero coefficient is a monomial multiplication (13; for a "negative" coefficient without the fast plain lift the
+    coefficient is lifted to every modulus first: 10 lift, 11 RNS decompose, 12 per-modulus monomial); otherwise the plaintext is lifted
+    (22 fast / 20, 21 multi-precision + decompose), transformed (23), the ciphertext transformed lazily (24), multiplied (25) and transformed
+    back with the FULL inverse transform (26) -/
+def multiplyPlainNormalRoute (nonzero : Nat) (monoUpper fastLift : Bool) : List Nat :=
+  if nonzero = 1 then (if monoUpper = true ∧ fastLift = false then [10, 11, 12] else [13])
+  else (if fastLift then [22] else [20, 21]) ++ [23, 24, 25, 26]
+
+/-- route, then the scale rule (`mulPlainScaleRule`, at BOTH exits of the function); the last entry is 100 + number of products recorded -/
+def multiplyPlainNormalPlan (nonzero : Nat) (monoUpper fastLift : Bool) (s : Scheme) (okProd : Bool) : R (List Nat) := do
+  let sc ← mulPlainScaleRule s okProd
+  pure (multiplyPlainNormalRoute nonzero monoUpper fastLift ++ [100 + sc])
+
 end HC
